@@ -334,7 +334,18 @@ structure QueryLoopShape where
   /-- calls of `qs.sendDone` in `Stream` -/
   sendDoneSites : Nat
   breaksOrGotos : Nat
+  /-- the `name := expr` statements before the loop, in order -/
+  prologue : List (String × String)
+  /-- statements before the loop that are not such definitions (an `if … { return }`, …) -/
+  prologueOther : Nat
+  /-- statements after the loop -/
+  afterLoop : Nat
   deriving DecidableEq, Repr, Inhabited
+
+/-- the deadline timer is armed unconditionally from the query's deadline, the channels are the query's -/
+def canonicalPrologue : List (String × String) :=
+  [("remaining", "time.Until(resp.Deadline())"), ("done", "time.After(remaining)"),
+   ("ackCh", "resp.AckCh()"), ("respCh", "resp.ResponseCh()")]
 
 def canonicalRecvs : List RecvShape :=
   [{ ch := "ackCh", okFlag := true, closedBranchExact := true, send := "qs.sendAck(a)", sendFailureReturns := true, extraStmts := 0 },
@@ -348,6 +359,8 @@ structure QVariant where
   /-- a completion record is (also) sent when the response channel is found closed and the loop goes on
   (a `break` inside the select leaves only the select) -/
   doneOnRespClose : Bool := false
+  /-- `Stream` returns before the loop when the deadline has already passed (no `done` at all) -/
+  returnIfExpired : Bool := false
   deriving DecidableEq, Repr, Inhabited
 
 def goodQ : QVariant := {}
@@ -361,7 +374,14 @@ def qVariantOf (sh : QueryLoopShape) : QVariant :=
   { ackOk := okOf "ackCh" && (find "ackCh").map (·.send) == some "qs.sendAck(a)",
     respOk := okOf "respCh" && (find "respCh").map (·.send) == some "qs.sendResponse(r.From, r.Payload)",
     doneOnRespClose := !(sh.sendDoneSites == 1 && sh.breaksOrGotos == 0 && sh.doneCases == 1 && sh.doneCaseSendsAndReturns &&
-        !sh.loopHasCondition && sh.recvs.length == 2) }
+        !sh.loopHasCondition && sh.recvs.length == 2),
+    returnIfExpired := !(sh.prologue == canonicalPrologue && sh.prologueOther == 0 && sh.afterLoop == 0) }
+
+/-- The state in which the loop starts.  `expired`: the query's deadline has already passed when
+the stream goroutine starts — `time.After` of a non-positive duration fires at once. -/
+def qStart (v : QVariant) (ackNil expired : Bool) : QS :=
+  if v.returnIfExpired && expired then { ackNil := ackNil, fired := true, stopped := true }
+  else { ackNil := ackNil, fired := expired }
 
 /-- the select loop for a variant; `qStepV goodQ = qStep` -/
 def qStepV (v : QVariant) (s : QS) : QAct → QS
